@@ -59,7 +59,13 @@ def evaluate(job):
         os.makedirs(os.path.join(copy, 'replay'), exist_ok=True)
         results = {}
         pid = meta['property']
-        for cid in [pid] + [x for x in EXTRA.get(pid, []) if x != pid]:
+        own_only = bool(os.environ.get('SEED_OWN_ONLY'))
+        if own_only:      # re-evaluate the check of the seed's own property only; keep what the other checks said last time
+            try:
+                results = {k: v for k, v in json.load(open(os.path.join(dst, 'results.json'))).items() if isinstance(v, dict) and k != pid}
+            except Exception:   # noqa
+                results = {}
+        for cid in [pid] + ([] if own_only else [x for x in EXTRA.get(pid, []) if x != pid]):
             for f in glob.glob(os.path.join(copy, 'replay', cid + '-*.json')):
                 os.remove(f)
             p = sh('/venv/bin/python harness/check.py %s quick' % cid, cwd=copy, env=dict(os.environ, VERIF_REPO=wt), timeout=5400)
@@ -76,7 +82,7 @@ def evaluate(job):
                     broken.append(str(b)[:300])
             verdict = 'quiet' if p.returncode == 0 else ('alarm-with-failing-input' if sigs else 'alarm-no-failing-input-found')
             results[cid] = {'exit': p.returncode, 'verdict': verdict, 'lines': [l[:200] for l in lines[:4]], 'signatures': sorted(sigs)[:8], 'broken_obligations': sorted(set(broken))[:4]}
-        return name, results
+        return name, ({pid: results[pid], **{k: v for k, v in results.items() if k != pid}} if own_only else results)
     finally:
         sh('git -C /repo worktree remove --force %s' % wt)
 
